@@ -404,3 +404,15 @@ func (p *Prog) LookupObjVar(pkgRel, name string) *types.Var {
 	v, _ := p.LookupObj(pkgRel, name).(*types.Var)
 	return v
 }
+
+var cgCache = map[*Prog]*CallGraph{}
+
+// BuildCallGraphCached builds the call graph once per program.
+func (p *Prog) BuildCallGraphCached() *CallGraph {
+	if cg := cgCache[p]; cg != nil {
+		return cg
+	}
+	cg := p.BuildCallGraph()
+	cgCache[p] = cg
+	return cg
+}
